@@ -451,7 +451,7 @@ def run_scheduler_scenarios(res, c):
     awaited by a parent and by its child, in every order and container): its provider runs once and every
     awaiter sees the one outcome."""
     import asynq
-    from asynq import Future
+    from asynq import ConstFuture, Future
     from asynq import asynq as A
     from asynq.decorators import lazy
     from .. import harness
@@ -548,8 +548,8 @@ def run_scheduler_scenarios(res, c):
     # ---- a TASK as the future under observation: one of the tasks it awaits is suspended on a batch item, a sibling
     # completes that batch behind the scheduler's back (nested synchronous call, item.value(), batch.flush()) in the
     # same traversal; value() must hand back the outcome - the same one every time - and leave the task computed
-    for how in ("sync-call", "item.value", "batch.flush"):
-        for order in ("waiter-first", "flusher-first", "waiter-twice", "nested-waiter"):
+    for how in ("sync-call", "item.value", "batch.flush", "batch.cancel"):
+        for order, with_other in itertools.product(("waiter-first", "flusher-first", "waiter-twice", "nested-waiter"), (False, True)):
             asynq.scheduler.reset()
             rt = harness.HarnessRT({"nodes": [], "kinds": 2})
             notes = []
@@ -561,8 +561,17 @@ def run_scheduler_scenarios(res, c):
 
             @A()
             def waits():
-                v = yield harness.HItem(rt, 0, "w%d" % next(n), ("c10t", "w"))
+                try:
+                    v = yield harness.HItem(rt, 0, "w%d" % next(n), ("c10t", "w")), harness.HItem(rt, 0, "w%d" % next(n), ("c10t", "w2"))
+                except UserErr as e:
+                    v = "cancelled"
                 return ("w", v)
+
+            @A()
+            def other():
+                # a second, smaller batch that really needs a scheduler flush: the scheduler has to choose
+                v = yield harness.HItem(rt, 1, "o%d" % next(n), ("c10t", "o"))
+                return ("o", v)
 
             @A()
             def outer_waits():
@@ -574,22 +583,29 @@ def run_scheduler_scenarios(res, c):
                     v = getter()
                 elif how == "item.value":
                     v = harness.HItem(rt, 0, "f%d" % next(n), ("c10t", "f")).value()
-                else:
+                elif how == "batch.flush":
                     it = harness.HItem(rt, 0, "f%d" % next(n), ("c10t", "f"))
                     it.batch.flush()
                     v = it.value()
+                else:
+                    # the batch the others wait for is cancelled (say, a transaction rolled back): it stays in the
+                    # scheduler's books, finished but with its items still listed
+                    it = harness.HItem(rt, 0, "f%d" % next(n), ("c10t", "f"))
+                    it.batch.cancel(UserErr(("rollback",)))
+                    v = "cancelled"
                 return ("s", v)
 
             @A()
             def parent():
+                more = (other.asynq(),) if with_other else (ConstFuture(("o", None)),)
                 if order == "waiter-first":
-                    v = yield waits.asynq(), flusher.asynq()
+                    v = yield (waits.asynq(), flusher.asynq()) + more
                 elif order == "flusher-first":
-                    v = yield flusher.asynq(), waits.asynq()
+                    v = yield (flusher.asynq(), waits.asynq()) + more
                 elif order == "waiter-twice":
-                    v = yield waits.asynq(), flusher.asynq(), waits.asynq()
+                    v = yield (waits.asynq(), flusher.asynq(), waits.asynq()) + more
                 else:
-                    v = yield outer_waits.asynq(), flusher.asynq()
+                    v = yield (outer_waits.asynq(), flusher.asynq()) + more
                 return v
 
             rt.attach()
@@ -605,7 +621,7 @@ def run_scheduler_scenarios(res, c):
                     viol.append(("value()-returned-with-the-task-uncomputed", {"first_value": repr(v1)[:120]}))
                 if not (v1 == v2 == v3):
                     viol.append(("task-reported-different-outcomes", {"first": repr(v1)[:100], "second": repr(v2)[:100], "call": repr(v3)[:100]}))
-                if v1[0] != "val" or not isinstance(v1[1], tuple) or [x[0] for x in v1[1] if isinstance(x, tuple)] != {"waiter-first": ["w", "s"], "flusher-first": ["s", "w"], "waiter-twice": ["w", "s", "w"], "nested-waiter": ["w", "s"]}[order]:
+                if v1[0] != "val" or not isinstance(v1[1], tuple) or [x[0] for x in v1[1] if isinstance(x, tuple)] != {"waiter-first": ["w", "s", "o"], "flusher-first": ["s", "w", "o"], "waiter-twice": ["w", "s", "w", "o"], "nested-waiter": ["w", "s", "o"]}[order]:
                     viol.append(("task-outcome-is-not-what-its-body-returned", {"observed": repr(v1)[:160]}))
                 if notes != [True]:
                     viol.append(("subscriber-notifications", {"expected": [True], "observed": notes}))
@@ -614,12 +630,12 @@ def run_scheduler_scenarios(res, c):
             finally:
                 rt.detach()
             res["evaluations"] += 1
-            res["nontrivial"].append(hash(("sched2", how, order)) & 0xFFFFFFFFFFFF)
+            res["nontrivial"].append(hash(("sched2", how, order, with_other)) & 0xFFFFFFFFFFFF)
             c["scheduler_scenarios"] = c.get("scheduler_scenarios", 0) + 1
             c["task_outcomes_after_a_flush_behind_the_schedulers_back"] = c.get("task_outcomes_after_a_flush_behind_the_schedulers_back", 0) + 1
             for v in viol:
                 if len(res["violations"]) < 8:
-                    res["violations"].append({"oracle": v[0], "mechanism": v[0] + "/flush-behind-the-scheduler", "detail": {"how": how, "order": order, "violation": v[1]}, "case": {"mode": "scheduler", "cases": [0, 1]}})
+                    res["violations"].append({"oracle": v[0], "mechanism": v[0] + "/flush-behind-the-scheduler", "detail": {"how": how, "order": order, "another_batch_pending": with_other, "violation": v[1]}, "case": {"mode": "scheduler", "cases": [0, 1]}})
 
 
 def run_unit(unit, progress):
